@@ -219,6 +219,14 @@ func externalMutator(callee *ssa.Function) bool {
 		"math/rand.Shuffle":
 		return true
 	}
+	for _, p := range []string{"(net/url.Values).", "(net/http.Header).", "(net/textproto.MIMEHeader)."} {
+		if strings.HasPrefix(s, p) {
+			switch s[len(p):] {
+			case "Set", "Add", "Del":
+				return true // updates the map it is called on
+			}
+		}
+	}
 	if strings.HasPrefix(s, "slices.Sort") || strings.HasPrefix(s, "slices.Reverse") {
 		return true // generic instantiations carry their type arguments in the name
 	}
